@@ -230,6 +230,15 @@ func char(s string, position int) string {
 	return c
 }
 
+// endsOperand returns true if the last token ends an operand, which means a following "-" is a binary operator
+// and not the sign of a number literal (a-1).
+func endsOperand(tokens []Token) bool {
+	if len(tokens) == 0 {
+		return false
+	}
+	return slices.Contains([]TokenType{IDENTIFIER, NUMBER_LITERAL, STRING_LITERAL, BOOL_LITERAL, NIL_LITERAL, CLOSING_ROUND_BRACKET, CLOSING_SQUARE_BRACKET}, tokens[len(tokens)-1].tokenType)
+}
+
 func Tokenize(source string) ([]Token, error) {
 	var err error = nil
 	tokens := []Token{}
@@ -296,7 +305,7 @@ func Tokenize(source string) ([]Token, error) {
 			// Create bool token.
 			token = newToken(match, BOOL_LITERAL, ogRow, ogColumn)
 			i += len(match)
-		} else if match := regexp.MustCompile(`^-?\d+(\.\d+)?`).FindString(source[i:]); match != "" {
+		} else if match := regexp.MustCompile(`^-?\d+(\.\d+)?`).FindString(source[i:]); match != "" && !(c0 == "-" && endsOperand(tokens)) {
 			// Create number token.
 			token = newToken(match, NUMBER_LITERAL, ogRow, ogColumn)
 			i += len(match)
